@@ -1,5 +1,6 @@
 import Hifi.Lemmas.EpochOrd
 import Hifi.Lemmas.ViewsFloat
+import Hifi.Props.C12
 /-
   C04  Epoch ± Duration is exact in the epoch's own time scale; differences invert it.
 -/
@@ -120,6 +121,55 @@ theorem diff_cross_scale (a b : Ep) (ha : a.dur.Canon) (hb : b.dur.Canon) (hta :
   have h := sub_spec a.dur r ha r2
   refine ⟨_, rfl, h.1, ?_⟩
   rw [h.2, r3]; unfold Ep.inst; simp only; rw [instV_uniform a.ts a.dur.val hta]; congr 1; omega
+
+/-- the same under the WEAKEST hypothesis — the conversion of the right operand into the left operand's scale
+    does not saturate (`ConvFits`, no margin; nothing demanded for operands of one scale); `diff_cross_scale`
+    above is the corollary for four centuries of margin -/
+theorem diff_cross_scale_nosat (a b : Ep) (ha : a.dur.Canon) (hb : b.dur.Canon) (hta : a.ts.isUniform = true)
+    (htb : b.ts.nonDyn = true) (hf : ConvFits b.ts a.ts b.dur.val) :
+    ∃ x, Ep.diff a b = some x ∧ x.Canon ∧ x.val = clampD (a.inst - b.inst) := by
+  obtain ⟨db, tb⟩ := b
+  obtain ⟨r, r1, r2, r3⟩ := to_uniform_inst_nosat db tb a.ts hb htb hta hf
+  unfold Ep.diff; rw [r1]; simp only
+  have h := sub_spec a.dur r ha r2
+  refine ⟨_, rfl, h.1, ?_⟩
+  rw [h.2, r3]; unfold Ep.inst; simp only; rw [instV_uniform a.ts a.dur.val hta]; congr 1; omega
+
+/-- in the vocabulary of the independent specification: the difference of the `Spec.instant`s, saturating -/
+theorem diff_cross_scale_spec (a b : Ep) (ha : a.dur.Canon) (hb : b.dur.Canon) (hta : a.ts.isUniform = true)
+    (htb : b.ts.nonDyn = true) (hf : ConvFits b.ts a.ts b.dur.val) :
+    ∃ x ia ib, Ep.diff a b = some x ∧ x.Canon ∧
+      Spec.instant Hifi.C06.iersTbl a.ts.name a.dur.val = some ia ∧
+      Spec.instant Hifi.C06.iersTbl b.ts.name b.dur.val = some ib ∧ x.val = clampD (ia - ib) := by
+  obtain ⟨x, h1, h2, h3⟩ := diff_cross_scale_nosat a b ha hb hta htb hf
+  have hna : a.ts.nonDyn = true := by cases a with | mk d t => cases t <;> simp_all [TS.isUniform, TS.nonDyn]
+  exact ⟨x, _, _, h1, h2, Hifi.C12.inst_eq_spec a hna, Hifi.C12.inst_eq_spec b htb, h3⟩
+
+/-- UTC LEFT operand.  `a − b` with `a` in UTC re-expresses `b` in UTC and subtracts the UTC counts: when the
+    instant of `b` has a UTC pre-image `u` (`instV .UTC u = b.inst`: it lies outside the inserted seconds, where
+    no UTC epoch denotes it — recorded finding D9b) the result is exactly `a.dur − u`, saturating, i.e. the
+    difference "measured in the time scale of the left operand", which for UTC omits the leap seconds inserted
+    between the two instants (second conjunct).  Hypothesis: the conversion does not saturate, no margin. -/
+theorem diff_utc_left (a b : Ep) (ha : a.dur.Canon) (hb : b.dur.Canon) (hta : a.ts = .UTC)
+    (htb : b.ts.nonDyn = true) (u : Int) (hu : instV .UTC u = b.inst)
+    (hfit : b.ts = .UTC ∨ (DMIN ≤ u ∧ b.inst ≤ DMAX)) :
+    ∃ x, Ep.diff a b = some x ∧ x.Canon ∧ x.val = clampD (a.dur.val - u) ∧
+      a.dur.val - u = (a.inst - b.inst) - (Spec.leapAt Hifi.C06.iersTbl a.dur.val - Spec.leapAt Hifi.C06.iersTbl u) * 1000000000 := by
+  obtain ⟨db, tb⟩ := b
+  obtain ⟨r, r1, r2, r3⟩ := to_utc_inst_nosat db tb hb htb u hu hfit
+  unfold Ep.diff; rw [hta, r1]; simp only
+  have h := sub_spec a.dur r ha r2
+  refine ⟨_, rfl, h.1, by rw [h.2, r3], ?_⟩
+  rw [← hu]
+  unfold Ep.inst instV
+  rw [hta, if_pos rfl, if_pos rfl, Hifi.C06.builtin_L_eq_spec, Hifi.C06.builtin_L_eq_spec]
+  omega
+
+-- non-vacuity of `diff_cross_scale_nosat` at the very end of the range (not `Safe`), and of `diff_utc_left`:
+-- the TAI epoch 2017-01-01T00:00:26 TAI is the instant of the UTC count 2016-12-31T23:59:50 (pre-image `u`)
+example : ConvFits .TAI .TAI (Dur.MAX).val ∧ ConvFits .GPST .TAI 0 ∧ ¬ Safe (Dur.MAX).val := by
+  unfold Safe; decide +kernel
+example : instV .UTC 3692217590000000000 = (⟨⟨1, 536457626000000000⟩, .TAI⟩ : Ep).inst := by decide +kernel
 
 /-! ### `Epoch + f64` seconds on SoftF64 (`impl Add<f64> for Epoch` as repaired by 62d8753:
     `if seconds.trunc() == seconds { (seconds as i64) * Unit::Second } else { seconds * Unit::Second }`) -/
